@@ -11,11 +11,12 @@ TB = [
     "exact integer model of IEEE-754 binary64 division / addition / subtraction / multiplication (lean/SmVerif/Model/Float64.lean: divNat, fadd, SF.subF, fmul); assumes CPython int/int true division, float +,-,* and float(str(x)) round-trips are correctly rounded (IEEE-754); fadd/subF/fmul are compared with CPython on generated operands in every run (ops fa/fs/fm)",
     "hand-written model of tax_utils (get_ident, LineageDB.load, summarize_up_ranks, build_summarized_result, check_values, build_classification_result, writer ordering) tied to /repo by the tax stream: exact (bit-for-bit) comparison of every reported double, row order included",
     "hypotheses of the theorems = what gather guarantees about its own rows (f_i = k_i/N, f_weighted_i = w_i/W, bp_i = k_i*scaled, positive pairwise-disjoint unique overlaps, sum k_i <= N, all found iff all weight found): this is property C07; the adapter re-checks on every case that the gather rows it obtains by RUNNING gather have exactly this form",
+    "kreport / bioboxes / human number formatting is modelled exactly (fmul, int(), '%.2f' / '%.1f' as round-half-even of the exact binary value: CPython's float formatting is assumed correctly rounded); multi-query runs are modelled (one gather CSV per query, krona / lineage_summary / csv_summary aggregation)",
     "csv module, FileInputCSV, argparse; ANI estimation (containment_to_distance) is not modelled (property C17)",
 ]
 AS = [
     "never_rejected for the strict tolerance repair (v2) is proved under: fewer than 2^22 gather rows and rows x total query abundance < 2^51 (4*n*W*2^-53 < 1); outside that range a rejection 'fraction is <=0%' on the remainder remains possible",
-    "one query per gather CSV in the correspondence stream (multi-query aggregation divides by the number of queries and is not modelled)",
+    "lingroup restriction and lingroup reports are not modelled",
     "taxid columns (taxpath) and lingroup restriction are not generated",
     "reported doubles are compared with the exact rational sums with tolerance 1e-12 in the oracle (declared in streams/tax.py); model vs implementation comparison is exact",
     "a containment threshold exactly equal (as a rational) to a summed fraction is skipped by the oracle: the float comparison may fall either side",
@@ -28,7 +29,7 @@ RULE = ("a generated taxonomy (standard ranks with missing ranks and null names,
         "lineage_csv / ANI-threshold classification / the command line (implementation-only, oracle-checked); non-trivial = >= 2 gather rows and a table or a "
         "rejection observed; distinct = distinct op lists")
 
-FLAVOURS = ["d18", "full", "small", "ties", "mixed", "abund", "overlap", "lin", "ictv", "mixed", "d18", "abund", "cli"]
+FLAVOURS = ["d18", "full", "small", "ties", "mixed", "abund", "overlap", "lin", "ictv", "mixed", "multi", "abund", "cli", "multi"]
 
 
 def extra(chk, pkg):
